@@ -47,6 +47,18 @@ def case_roundtrip(inp):
     return True, None, None, ('rt', s[:16], sep, hill)
 
 
+def case_nist(inp):
+    """mass of a composition against the independent isotope table (elements the table knows; particles e / p / n included)"""
+    from specs import nist
+    comp = inp['comp']
+    for mono_, tol in ((True, 1e-5), (False, 2e-3)):
+        ref = float(nist.comp_mass(comp, mono_))
+        got = pt.chem_mass(dict(comp), monoisotopic=mono_)
+        if abs(got - ref) > tol * max(1.0, sum(abs(v) for v in comp.values()) / 10):
+            return False, ('mass of the composition == sum of count x atomic mass (independent table)', mono_, ref), got, None
+    return True, None, None, ('nist', tuple(sorted(comp))[:4])
+
+
 def case_additive(inp):
     a, b = inp['a'], inp['b']
     sa, sb = pt.write_chem_formula(dict(a)), pt.write_chem_formula(dict(b))
@@ -65,6 +77,26 @@ def case_text(inp):
     """explicit formula texts: repeated elements accumulate, isotopes in brackets stay distinct, explicit zero counts"""
     got = pt.parse_chem_formula(inp['text'])
     return close(norm(got), norm(inp['expected'])), inp['expected'], got, ('text', inp['text'])
+
+
+def case_malformed(inp):
+    """a malformed formula text is rejected with a ValueError-family error -- it never hangs and never yields a composition"""
+    import signal
+
+    def on_alarm(*_):
+        raise TimeoutError('no result within 5 s')
+    signal.signal(signal.SIGALRM, on_alarm)
+    signal.alarm(5)
+    try:
+        try:
+            got = pt.parse_chem_formula(inp['text'])
+            return False, 'ValueError', got, None
+        except ValueError as e:
+            return True, 'ValueError', type(e).__name__, ('bad', inp['text'])
+        except TimeoutError as e:
+            return False, 'ValueError', 'hangs: ' + str(e), None
+    finally:
+        signal.alarm(0)
 
 
 def mono_table():
@@ -134,6 +166,14 @@ def run(rec, tier, seed):
             for hill in (False, True):
                 inp = dict(comp=comp, sep=sep, hill=hill)
                 rec.guarded('write-parse-roundtrip', inp, lambda: case_roundtrip(inp), fk)
+    from specs import nist as _n
+    known = lambda k: (k in ('e', 'p', 'n', 'D')) or (k.lstrip('0123456789') in _n.ISOTOPES and
+                                                      (not k[0].isdigit() or any(a_ == int(k[:len(k) - len(k.lstrip('0123456789'))]) for a_, _, _ in _n.ISOTOPES[k.lstrip('0123456789')])))
+    extra = [dict(C=2, H=6, n=1), dict(n=2), dict(p=1, e=-1), dict(C=1, e=2, p=1, n=3), {'13C': 2, 'n': 1}, dict(D=2, O=1)]
+    for comp in comps + extra:
+        if comp and all(known(k) for k in comp):
+            inp = dict(comp=comp)
+            rec.guarded('mass-vs-independent-table', inp, lambda: case_nist(inp), fk)
     for a, b in itertools.product(comps[:12], repeat=2):
         inp = dict(a=a, b=b)
         rec.guarded('additivity', inp, lambda: case_additive(inp), fk)
@@ -142,6 +182,9 @@ def run(rec, tier, seed):
                       ('[13C2]C2[13C1]H1', {'13C': 3, 'C': 2, 'H': 1}), ('C0.0H1', dict(H=1)), ('N1a0' if False else 'Na1N1', dict(Na=1, N=1))]:
         inp = dict(text=text, expected=exp)
         rec.guarded('formula-texts', inp, lambda: case_text(inp), fk)
+    for text in ['C]', ']', 'C6]H12', 'C[13C2]]H', '[13C2]]', 'H2O]]', 'C[13C', '[', 'C[', 'C[13C2][', 'C2@', 'c2', '2C']:
+        inp = dict(text=text)
+        rec.guarded('malformed-formula-rejected', inp, lambda: case_malformed(inp), fk)
     names = sorted(mono_table())
     gl = [{'Hex': 3, 'HexNAc': 2}, {'Hex': 1}] + ([{'HexNAc': 2, 'Hex': 3, 'Fuc': 1, 'NeuAc': 2}] if all(x in names for x in ('Fuc', 'NeuAc')) else [])
     for nm in names:
@@ -162,7 +205,8 @@ def run(rec, tier, seed):
 def main():
     a = args()
     if a.replay:
-        replay_main(a, {'write-parse-roundtrip': case_roundtrip, 'additivity': case_additive, 'formula-texts': case_text, 'glycan': case_glycan})
+        replay_main(a, {'write-parse-roundtrip': case_roundtrip, 'additivity': case_additive, 'formula-texts': case_text, 'glycan': case_glycan,
+                        'malformed-formula-rejected': case_malformed, 'mass-vs-independent-table': case_nist})
     rec = Recorder('C15-bounded',
                    'compositions over all elements of the bundled table, isotope-prefixed keys, D/T, e/p/n, integer counts in [-200,500], '
                    'decimal counts with up to 4 places, explicit zeros x separators {"", " ", "|"} x hill order: parse(write(c)) == c without '
